@@ -7,6 +7,7 @@ import (
 	"fmt"
 	"os"
 	"path/filepath"
+	"regexp"
 	"sort"
 	"strconv"
 	"strings"
@@ -26,6 +27,13 @@ func c18DumpMap(m map[string]string) string {
 	}
 	sort.Strings(es)
 	return strings.Join(es, "+")
+}
+
+func c18Opt(h string) string {
+	if h == "-" {
+		return ""
+	}
+	return string(unhex(h))
 }
 
 func c18Split(s string) []string {
@@ -231,7 +239,68 @@ func init() {
 		return "[" + strings.Join(hs, ",") + "]"
 	})
 
-	// case: "<root hex> <files L|D<relhex>,..> <cur rel hex> <refs r|d<hex>,..> <events c|d<relhex>,..|->"
+	// ---- the string under the cursor: the whole stringutil.GetOpenFileStr on a synthesized document ----
+	// case: "<pre hex|-> <line hex> <post hex|-> <col> <ch> <refer names hex,..|->" (+ the oracle's two tokens, ignored here)
+	// document = pre + line + post (pre ends with a line break or is empty, post starts with one or is empty);
+	// cursor = byte column col of the line, pos.Character = ch. Observable: the candidate list.
+	register("c18.cursor", func(line string) string {
+		f := strings.Fields(line)
+		pre, ln, post := c18Opt(f[0]), string(unhex(f[1])), c18Opt(f[2])
+		col, _ := strconv.Atoi(f[3])
+		ch, _ := strconv.Atoi(f[4])
+		refers := []string{}
+		for _, h := range c18Split(f[5]) {
+			refers = append(refers, string(unhex(h)))
+		}
+		out := stringutil.GetOpenFileStr([]byte(pre+ln+post), len(pre)+col, ch, refers)
+		hs := []string{}
+		for _, o := range out {
+			hs = append(hs, hx([]byte(o)))
+		}
+		return "[" + strings.Join(hs, ",") + "]"
+	})
+
+	// oracle of c18.cursor: Go's regular-expression engine on the line, for the expressions of GetOpenFileStr as they
+	// are since fixes/C18-string-cursor.diff ("new:") and as they were before it ("old:": the dofile expression took
+	// double quotes only). Per pattern, in the order the code tries them (D dofile, R require, then L / I = import
+	// with / without a ?lua text per configured name): the matches as start.stop.qs.qe (qs, qe: the first quoted
+	// literal inside the matched text, 0.0 if none).
+	register("c18.cursor_rx", func(line string) string {
+		f := strings.Fields(line)
+		ln := string(unhex(f[1]))
+		refers := []string{}
+		for _, h := range c18Split(f[5]) {
+			refers = append(refers, string(unhex(h)))
+		}
+		regFen := regexp.MustCompile("[\\\"|\\'][0-9a-zA-Z_/\\.\\-]+[\\\"|\\']")
+		group := func(tag string, re *regexp.Regexp) string {
+			os := []string{}
+			for _, loc := range re.FindAllStringIndex(ln, -1) {
+				qs, qe := 0, 0
+				if q := regFen.FindStringIndex(ln[loc[0]:loc[1]]); q != nil {
+					qs, qe = q[0], q[1]
+				}
+				os = append(os, fmt.Sprintf("%d.%d.%d.%d", loc[0], loc[1], qs, qe))
+			}
+			if len(os) == 0 {
+				return tag + "=-"
+			}
+			return tag + "=" + strings.Join(os, "+")
+		}
+		set := func(dofile string) string {
+			gs := []string{group("D", regexp.MustCompile(dofile)),
+				group("R", regexp.MustCompile("require *?(\\()? *?[\\\"|\\'][0-9a-zA-Z_/\\-|.]+[\\\"|\\'] *?(\\))?"))}
+			for _, r := range refers {
+				gs = append(gs, group("L", regexp.MustCompile(regexp.QuoteMeta(r)+" *?(\\()? *?[\\\"|\\'][0-9a-zA-Z_/|.\\-]+.lua+[\\\"|\\'] *?(\\))?")))
+				gs = append(gs, group("I", regexp.MustCompile(regexp.QuoteMeta(r)+" *?(\\()? *?[\\\"|\\'][0-9a-zA-Z_/|.\\-]+[\\\"|\\'] *?(\\))?")))
+			}
+			return strings.Join(gs, "|")
+		}
+		return "new:" + set("dofile *?\\( *?[\\\"|\\'][0-9a-zA-Z_/\\-]+.lua[\\\"|\\'] *?\\)") +
+			" old:" + set("dofile *?\\( *?\\\"[0-9a-zA-Z_/\\-]+.lua\\\" *?\\)")
+	})
+
+	// case: "<root hex> <files L|D<relhex>,..> <cur rel hex> <refs r|q|d|D<hex>,..> <events c|d<relhex>,..|->"
 	// a real AllProject over a real directory: first analysis, then one HandleFileEventChanges per event;
 	// after each: per reference of cur  err6:valid:{loaded}:{definition files}:{hover candidates}
 	register("c18.project", func(line string) string {
@@ -253,12 +322,17 @@ func init() {
 		src := ""
 		for i, r := range c18Split(f[3]) {
 			s := string(unhex(r[1:]))
-			pre := fmt.Sprintf("local m%d = require(\"", i)
-			if r[0] == 'd' {
+			pre, post := fmt.Sprintf("local m%d = require(\"", i), "\")\n"
+			switch r[0] {
+			case 'q':
+				pre, post = fmt.Sprintf("local m%d = require '", i), "'\n"
+			case 'd':
 				pre = "dofile(\""
+			case 'D':
+				pre, post = "dofile('", "')\n"
 			}
 			refs = append(refs, ref{r[0], s, len(pre), len(src) + len(pre)})
-			src += pre + s + "\")\n"
+			src += pre + s + post
 		}
 		if err := os.MkdirAll(filepath.Dir(cur), 0o755); err != nil {
 			return "SETUP-ERROR " + err.Error()
